@@ -185,6 +185,28 @@ Definition transform (fx : bool) (D : list Seg) (G : ExtQ) (c : Cyc) : option (Q
     let c' := transform_state fx D G c in Some (result_amp c', result_mean c')
   else None.
 
+(* ------------------------------------------------------------------ listing order of the segments (HaighDiagram.from_dict) *)
+(* The walk above depends on the order in which the segments are LISTED in the 'R' index: (1, inf) and (-inf, 0) always
+   have the same distance from the goal (both map to the fake mean stress -1) and the stable sort keeps ties in listing
+   order.  fo = false: the code as it is.  fo = true: the code with fixes/C12-segment-listing-order.patch, whose
+   segments_left_from_R_goal puts the segments beyond R = 1 (interval.left >= 1.0) in front before the stable sort. *)
+Definition beyond_one (s : Seg) : bool := eleb (Fin 1) (lo s).
+Definition beyond_first (D : list Seg) : list Seg :=
+  filter beyond_one D ++ filter (fun s => negb (beyond_one s)) D.
+
+Definition schedule_ord (fo fx : bool) (D : list Seg) (G : ExtQ) : list (Seg * ExtQ) :=
+  map (fun s => (s, left_boundary s)) (left_segs (if fo then beyond_first D else D) G)
+  ++ map (fun s => (s, lo s)) (right_segs D G)
+  ++ map (fun s => (s, G)) (containing fx D G).
+
+Definition transform_state_ord (fo fx : bool) (D : list Seg) (G : ExtQ) (c : Cyc) : Cyc :=
+  fold_left step (schedule_ord fo fx D G) c.
+
+Definition transform_ord (fo fx : bool) (D : list Seg) (G : ExtQ) (c : Cyc) : option (Q * Q) :=
+  if goal_accepted G then
+    let c' := transform_state_ord fo fx D G c in Some (result_amp c', result_mean c')
+  else None.
+
 (* ------------------------------------------------------------------ MeanstressTransformMatrix._rebin_results *)
 (* breaks = np.linspace(0, ranges_max, bincount + 1) are supplied by the harness (they depend on ceil and hypot of
    floats); the model is the aggregation: interval k = (b_k, b_{k+1}], closed on the left iff b_k == 0 *)
